@@ -1541,6 +1541,14 @@ func (nz *normaliser) expandBody(h *helper, call *ast.CallExpr, lhs []ast.Expr, 
 			substExpr[b] = b.arg
 			continue
 		}
+		// an argument that is plain arithmetic over variables (interval / 2) and feeds a parameter that is read once is
+		// written where it is read
+		if pureSyntax(b.arg) && len(uses[b]) == 1 && !mutated(hinfo, h.decl.Body, b.v) && types.Identical(info.TypeOf(b.arg), b.v.Type()) {
+			if _, isLit := ast.Unparen(b.arg).(*ast.BasicLit); !isLit {
+				substExpr[b] = &ast.ParenExpr{X: b.arg}
+				continue
+			}
+		}
 		if !nz.freeOK(h, b.typ, nz.pk, nz.file, call.Pos()) {
 			nzWhy(h, "the type of parameter %s means something else at the call", b.name)
 			return nil
@@ -1637,6 +1645,8 @@ func (nz *normaliser) expandBody(h *helper, call *ast.CallExpr, lhs []ast.Expr, 
 	// labels of the helper must stay unique in the host function
 	relabel(body, fmt.Sprintf("Zq%d", nz.seq))
 	needLabel := false
+	nGenAssign := 0
+	var lastGenAssign *ast.AssignStmt
 	if tail {
 		// bare returns of a helper with named results become explicit
 		if len(named) > 0 {
@@ -1705,7 +1715,10 @@ func (nz *normaliser) expandBody(h *helper, call *ast.CallExpr, lhs []ast.Expr, 
 				for i, l := range lhs {
 					l2[i] = cloneNode(l)
 				}
-				out = append(out, &ast.AssignStmt{Lhs: l2, Tok: token.ASSIGN, Rhs: res})
+				ga := &ast.AssignStmt{Lhs: l2, Tok: token.ASSIGN, Rhs: res}
+				out = append(out, ga)
+				nGenAssign++
+				lastGenAssign = ga
 			} else if len(res) > 0 {
 				for _, e := range res {
 					out = append(out, &ast.AssignStmt{Lhs: []ast.Expr{ast.NewIdent("_")}, Tok: token.ASSIGN, Rhs: []ast.Expr{e}})
@@ -1748,8 +1761,8 @@ func (nz *normaliser) expandBody(h *helper, call *ast.CallExpr, lhs []ast.Expr, 
 	}
 	nz.changed[nz.file] = true
 	nz.notes = append(nz.notes, fmt.Sprintf("call of %s expanded in place", funcName(h.obj)))
-	if !tail && !needLabel && k == nil && finalLhs == nil {
-		body.List = unifyResults(body.List, sfx)
+	if !tail && !needLabel && finalLhs == nil && nGenAssign == 1 {
+		body.List = unifyResults(body.List, sfx, lastGenAssign)
 	}
 	var inner *ast.BlockStmt
 	if needLabel {
@@ -1838,23 +1851,32 @@ func freeBreak(n ast.Node) bool {
 // The helper's result variables and the caller's receiving variables are then one and the same: the declaration becomes
 // the assignment `x, y = <expr>` and the copy at the end disappears — which is the statement that stood in the caller
 // before it was moved into the helper (`ac, ok := s.outgoingCalls[id]` rather than a lookup into temporaries and a copy).
-func unifyResults(list []ast.Stmt, sfx string) []ast.Stmt {
-	if len(list) < 2 {
+func unifyResults(list []ast.Stmt, sfx string, fin *ast.AssignStmt) []ast.Stmt {
+	if len(list) < 2 || fin == nil {
 		return list
 	}
-	fin, ok := list[len(list)-1].(*ast.AssignStmt)
-	if !ok || fin.Tok != token.ASSIGN || len(fin.Lhs) != len(fin.Rhs) {
+	// the generated assignment sits at the top level; what follows it (the caller's test of the results, copied here)
+	// mentions the caller's variables only
+	finAt := -1
+	for i, st := range list {
+		if st == ast.Stmt(fin) {
+			finAt = i
+		}
+	}
+	if finAt < 1 || fin.Tok != token.ASSIGN || len(fin.Lhs) != len(fin.Rhs) {
 		return list
 	}
+	rest := list[finAt+1:]
+	list = list[:finAt+1]
 	to := map[string]string{} // helper local → caller variable
 	for i, r := range fin.Rhs {
 		rid, ok1 := r.(*ast.Ident)
 		lid, ok2 := fin.Lhs[i].(*ast.Ident)
 		if !ok1 || !ok2 || !strings.HasSuffix(rid.Name, sfx) || lid.Name == "_" {
-			return list
+			return append(list, rest...)
 		}
 		if _, dup := to[rid.Name]; dup {
-			return list
+			return append(list, rest...)
 		}
 		to[rid.Name] = lid.Name
 	}
@@ -1877,12 +1899,12 @@ func unifyResults(list []ast.Stmt, sfx string) []ast.Stmt {
 			continue
 		}
 		if n != len(as.Lhs) || n != len(to) || declAt >= 0 {
-			return list
+			return append(list, rest...)
 		}
 		declAt = i
 	}
 	if declAt < 0 {
-		return list
+		return append(list, rest...)
 	}
 	// no other definition of these names anywhere (nested := of the same name would now assign the caller's variable)
 	defs := 0
@@ -1920,7 +1942,7 @@ func unifyResults(list []ast.Stmt, sfx string) []ast.Stmt {
 		})
 	}
 	if defs != len(to) {
-		return list
+		return append(list, rest...)
 	}
 	for _, st := range list[:len(list)-1] {
 		ast.Inspect(st, func(n ast.Node) bool {
@@ -1933,7 +1955,7 @@ func unifyResults(list []ast.Stmt, sfx string) []ast.Stmt {
 		})
 	}
 	list[declAt].(*ast.AssignStmt).Tok = token.ASSIGN
-	return list[:len(list)-1]
+	return append(list[:len(list)-1:len(list)-1], rest...)
 }
 
 // evidentlyNonNil: the expression builds a new value (an error constructor, &T{…}).
